@@ -23,7 +23,7 @@ import itertools
 from .. import determinism
 from ..catalogue import DT
 from ..model import model_of
-from ..overload import Ambiguous, InternalError, Model, family
+from ..overload import Ambiguous, HybridModel, InternalError, Model, family
 
 
 def universe(T, thorough: bool):
@@ -34,8 +34,11 @@ def universe(T, thorough: bool):
         if repr(t) not in seen:
             seen.add(repr(t))
             out.append(t)
+    # sized decimal / string / enum: the cost rule of conversion_cost for these families is a separate code path
+    # (two of each, so that tuples mixing different sizes of one family exist)
+    out += [DT("Decimal", 10, 2), DT("Decimal", 20, 5), DT("String", 5), DT("String", 40), DT("Enum", "a", "bb")]
     if thorough:
-        out += [DT("Decimal", 10, 2), DT("Decimal", 38, 20), DT("String", 5), DT("String", 40), DT("Enum", "a", "bb"),
+        out += [DT("Decimal", 38, 20), DT("Enum", "x"),
                 DT("List", DT("Int64")), DT("List", DT("String")), DT("List", DT("Float"))]  # fmt: skip
     return out + [DT("Const", t) for t in out]
 
@@ -78,7 +81,7 @@ def arities(op, max_var):
 def run(chk):
     m = model_of(chk)
     cat = m.cat
-    M = Model(cat)
+    M = HybridModel(cat)
     T = cat.types
     thorough = chk.tier == "thorough"
     uni = universe(T, thorough)
@@ -93,6 +96,8 @@ def run(chk):
     chk.rule("SIZED", "a sized int / float is accepted wherever the generic type is, with a result of the same family")
     chk.rule("CONST", "const arguments are accepted wherever non-const ones are; Const parameters reject column arguments")
     chk.rule("MODEL", "the matcher source has the structure the model M1-M6 assumes (const rule, const-preserving type-variable substitution, uniqueness assertion, strict zips)")
+    chk.rule("XMODEL", "the hand-written trie-matching model agrees with the interpreted source of SignatureTrie / best_signature_match (subset in quick, whole quick universe in thorough)")
+    chk.rule("CONSTREJ", "hand-written type checks that decide a rejection test the dtype after without_const (a constant is accepted wherever a column is)")
     chk.rule("DET", "no hash-order dependent choice in lca_type / signature matching (A12)")
     chk.floor("UNIQ", "operators", len(cat.ops), 96)
     chk.floor("UNIQ", "conversion sources", len(T.IMPLICIT_CONVS), 19)
@@ -221,6 +226,9 @@ def run(chk):
 
     # ---- LCA
     base = [t for t in uni if not M.is_const(t)]
+    for extra in (DT("List", DT("Int64")), DT("List", DT("String")), DT("List", DT("List", DT("Int8")))):
+        if extra not in base:
+            base.append(extra)
     n_l = 0
     amb, internal = [], []
     null_amb = 0
@@ -243,6 +251,15 @@ def run(chk):
 
     # ---- MODEL: structural facts of the matcher that the model relies on (each a necessary condition of M1-M6)
     _model_conformance(chk, m)
+
+    # ---- XMODEL: hand-written trie walk vs interpreted source of ops/signature.py
+    _xmodel(chk, cat, thorough)
+
+    # ---- CONSTREJ: type checks outside the overload matcher (when / filter / join on / cast ...)
+    from .. import constness
+
+    constness.run_rule(chk, "CONSTREJ", m.sym, scope=("tree.col_expr", "pipe.", "tree.verbs", "tree.types"), floor=4,
+                       only=constness.decides_rejection)  # fmt: skip
 
     # ---- DET
     determinism.run_rule(chk, "DET", scope=("tree.types", "ops.signature", "ops.op"), floor=1)
@@ -313,3 +330,94 @@ def _model_conformance(chk, m):
     guard = any("self._dtype is None" in " ".join(norm(t) for t, _ in dominating_tests(r, dt)) for r in raises)
     chk.ob("MODEL", ce, dt, "ColFn.dtype raises DataTypeError when no overload matches", guard,
            "ColFn.dtype no longer turns `no matching overload` into DataTypeError")  # fmt: skip
+
+
+# ---------------------------------------------------------------------------------------------------------------
+# XMODEL
+
+
+def reduced_universe(T):
+    base = [DT("Int64"), DT("UInt8"), DT("Int"), DT("Float64"), DT("Float"), DT("Decimal"), DT("Decimal", 10, 2), DT("String"), DT("String", 5),
+            DT("Enum", "a", "bb"), DT("Bool"), DT("Date"), DT("Datetime"), DT("Duration"), DT("NullType")]  # fmt: skip
+    return base + [DT("Const", t) for t in (DT("Int64"), DT("Float"), DT("String"), DT("Bool"), DT("NullType"))]
+
+
+def _outcome(fn, op, tup):
+    try:
+        r = fn(op, list(tup))
+        return ("none",) if r is None else ("ok", repr(r[1]), tuple(repr(x) for x in r[0]))
+    except Ambiguous:
+        return ("amb",)
+    except InternalError as e:
+        return ("int", str(e).split(":")[0])
+
+
+def _xmodel_worker(job):
+    root, op_vars, mode = job
+    from ..catalogue import Catalogue
+    from ..source import Repo
+
+    cat = Catalogue(Repo(root))
+    M = HybridModel(cat)
+    T = cat.types
+    n = 0
+    diffs = []
+    for var in op_vars:
+        op = cat.ops[var]
+        if mode == "full":
+            unis = {1: universe(T, False), 2: universe(T, False), 3: universe(T, False)}
+            max_var = 3
+        else:
+            r = reduced_universe(T)
+            unis = {1: universe(T, False), 2: r, 3: r[:4] + r[6:8] + r[10:11] + r[14:17]}
+            max_var = 3
+        for ar in arities(op, max_var):
+            uni = unis.get(ar, unis[3])
+            pools = []
+            for pos in range(ar):
+                v = [t for t in uni if viable(M, op, pos, t)]
+                nv = next((t for t in uni if t not in v), None)
+                pools.append(v + ([nv] if nv is not None else []))
+            for tup in itertools.product(*pools) if pools else [()]:
+                n += 1
+                a = _outcome(M.best_match, op, tup)
+                b = _outcome(M.src_best_match, op, tup)
+                if a != b and not (a[0] == "int" and b[0] == "int"):
+                    diffs.append((var, tuple(repr(t) for t in tup), a, b))
+    return n, diffs, M.S.steps
+
+
+def _xmodel(chk, cat, thorough):
+    import os
+    from concurrent.futures import ProcessPoolExecutor
+
+    from ..source import AnalysisError
+
+    ops = sorted(cat.ops, key=lambda v: -len(cat.ops[v].signatures))
+    nproc = min(16, os.cpu_count() or 1)
+    chunks = [ops[i::nproc] for i in range(nproc)]
+    jobs = [(str(chk.repo.root), ch, "full" if thorough else "subset") for ch in chunks if ch]
+    n = steps = 0
+    diffs = []
+    with ProcessPoolExecutor(max_workers=nproc) as ex:
+        for k, d, st in ex.map(_xmodel_worker, jobs):
+            n += k
+            steps += st
+            diffs += d
+    chk.extra_cov.update({"xmodel_tuples": n, "interpreter_steps": steps})
+    smod = chk.repo.mod("ops.signature")
+    bad = [d for d in diffs if d[3][0] in ("amb", "int")]
+    if bad:
+        d = bad[0]
+        chk.fail("XMODEL", smod, smod.func("best_signature_match"), "interpreted SignatureTrie.best_match: no internal failure where the model predicts a result",
+                 f"the source of ops/signature.py, interpreted, fails for {len(bad)} argument tuples where the matching rule M1-M6 gives a result, "
+                 f"e.g. ops.{d[0]}{d[1]}: source -> {d[3]}, model -> {d[2]}")  # fmt: skip
+    elif diffs:
+        d = diffs[0]
+        raise AnalysisError(
+            f"C13/XMODEL: the hand-written matching model no longer describes ops/signature.py ({len(diffs)} of {n} tuples differ, e.g. "
+            f"ops.{d[0]}{d[1]}: source -> {d[3]}, model -> {d[2]}); UNIQ / SIZED / CONST were evaluated on a stale model"
+        )
+    else:
+        chk.ok("XMODEL", smod, smod.func("best_signature_match"), f"model == interpreted source on {n} argument tuples")
+    chk.floor("XMODEL", "argument tuples compared", n, 3000)
